@@ -25,8 +25,9 @@ type Opts struct {
 	MaxGroupDepth int
 	// MaxMapSize for unknown-field maps (use > 8 to cross Go's small-map bucket).
 	MaxMapSize int
-	// MatrixTokens etc. are supplied through Str.
-	Hist func(string)
+	// GroupBias: extra percentage of steps that are groups (to reach deep nesting).
+	GroupBias int
+	Hist      func(string)
 }
 
 func (o *Opts) hist(k string) {
@@ -397,7 +398,11 @@ func shuffleKeys(r *core.Rand, m *ordered.MapSA) *ordered.MapSA {
 
 func (o *Opts) Step(depth int) any {
 	r := o.R
-	switch r.Intn(14) {
+	pick := r.Intn(14)
+	if o.GroupBias > 0 && depth < o.MaxGroupDepth && r.Intn(100) < o.GroupBias {
+		pick = 4
+	}
+	switch pick {
 	case 0:
 		o.hist("step.scalar")
 		return core.Pick(r, []string{"wait", "waiter", "block", "input", "manual"})
